@@ -228,6 +228,8 @@ impl<M: Model> Sender<M> {
         });
 
         #[cfg(feature = "verif-hooks")]
+        crate::verif_hooks::maybe_yield().await;
+        #[cfg(feature = "verif-hooks")]
         crate::verif_hooks::probe(crate::verif_hooks::site::CHAN_SEND_BEFORE_PUSH, self.channel_id());
         let success = self
             .inner
